@@ -207,6 +207,14 @@ StopEnd ==
   /\ stopState' = "done"
   /\ UNCHANGED <<wcount, chan, wstate, wconn, lastUse, cstate, picked, cleanSel, stopIdx, clock, served>>
 
+\* Start() after Stop(): only the cleaner goroutine is started again; mustStop stays TRUE (workers
+\* keep exiting after one connection) and every counter keeps its value - in particular workers
+\* that are still serving connections accepted before the Stop remain counted.
+Restart ==
+  /\ AllowStop /\ stopState = "done"
+  /\ stopState' = "no"
+  /\ UNCHANGED <<ready, wcount, mustStop, chan, wstate, wconn, lastUse, cstate, picked, cleanSel, stopIdx, clock, served>>
+
 Tick ==
   /\ clock < MaxClock
   /\ clock' = clock + 1
@@ -226,6 +234,10 @@ Fairness ==
   /\ WF_vars(CleanNotify) /\ WF_vars(CleanSelect) /\ WF_vars(Tick) /\ WF_vars(StopNil) /\ WF_vars(StopEnd)
 
 Spec == Init /\ [][Next]_vars /\ Fairness
+
+\* the pool restarted after Stop any number of times: safety only (an endless Stop/Start cycle
+\* is a legitimate non-progress behaviour, so the liveness properties are stated for Spec)
+SpecRestart == Init /\ [][Next \/ Restart]_vars
 
 -----------------------------------------------------------------------------
 (* Properties (C13) *)
